@@ -1,4 +1,5 @@
 #include "ephemeralnet/network/SessionManager.hpp"
+#include "ephemeralnet/VerifProbe.hpp"
 
 #include "ephemeralnet/Types.hpp"
 #include "ephemeralnet/crypto/ChaCha20.hpp"
@@ -237,6 +238,7 @@ void SessionManager::register_peer_key(const PeerId& peer_id, const std::array<s
 
     const auto it = sessions_.find(peer_key_string(peer_id));
     if (it != sessions_.end() && it->second) {
+        EPH_VERIF_ACCESS("session_key", "SessionManager::register_peer_key", true);
         it->second->key = key;
     }
 }
@@ -360,6 +362,7 @@ bool SessionManager::send(const PeerId& peer_id, std::span<const std::uint8_t> p
     }
 
     crypto::Key key{};
+    EPH_VERIF_ACCESS("session_key", "SessionManager::send", false);
     key.bytes = session->key;
 
     crypto::Nonce nonce{};
@@ -813,6 +816,7 @@ void SessionManager::receive_loop(const PeerId& peer_id, std::shared_ptr<Session
         }
 
         crypto::Key key{};
+        EPH_VERIF_ACCESS("session_key", "SessionManager::receive_loop", false);
         key.bytes = session->key;
 
         crypto::Nonce nonce{};
